@@ -21,7 +21,7 @@ from ..instrument import wrap
 PROP = 'C06'
 LEVEL = 'exploration'
 RULE = ('operation sequences over a node pool (document, elements, text nodes, free fragments, one attribute-held fragment): '
-        'exhaustive over all valid sequences up to length L on a reduced pool (quick L=3, thorough L=4), random walks up to length 40 '
+        'exhaustive over all valid sequences up to length 3 on a 6-node pool and up to length 3 (quick) / 5 (thorough) on a 4-node pool, random walks up to length 40 '
         'on the full pool; operations append/appendChild, insert, insertBefore, insertAfter, replaceChild, removeChild/remove, pop, '
         '__setitem__ (i>=0 and i<0), extend, +=, normalize, cloneNode(deep/shallow), attribute assignment of a fragment.  A case is '
         'non-trivial when it contains at least 2 operations that changed the model; distinct by content hash of the operation list.')
@@ -34,7 +34,7 @@ P_DISC, P_PREC, P_FOLL, P_CONTAINS, P_CONTAINED, P_SAME = 1, 2, 4, 8, 16, 32
 
 
 def budget(tier):
-    return {'exh_len': 3 if tier == 'quick' else 4, 'n': 5000 if tier == 'quick' else 200000, 'case_timeout': 30}
+    return {'n': 8000 if tier == 'quick' else 300000, 'case_timeout': 30}
 
 
 _hookstate = {'world': None, 'depth': 0}
@@ -363,10 +363,10 @@ def random_seq(r, pool, maxlen):
 
 def cases(seed, tier, shard, nshards):
     b = budget(tier)
-    L = b['exh_len']
-    for seq in exhaustive(SMALL_POOL, L, shard, nshards):
+    # quick: small pool len<=3, tiny pool len<=3; thorough: small pool len<=3, tiny pool len<=5 (the bound of the quantifier)
+    for seq in exhaustive(SMALL_POOL, 3, shard, nshards):
         yield {'pool': 'small', 'ops': seq, 'exh': 1}
-    for seq in exhaustive(TINY_POOL, L + (0 if tier == 'quick' else 1), shard, nshards):
+    for seq in exhaustive(TINY_POOL, 3 if tier == 'quick' else 5, shard, nshards):
         yield {'pool': 'tiny', 'ops': seq, 'exh': 1}
     for i in common.sharded(b['n'], shard, nshards):
         r = common.rng_for(seed, PROP, i)
@@ -745,8 +745,7 @@ def _names(nodes):
 
 
 def evidence_extra(merged, feats, tier):
-    L = budget(tier)['exh_len']
-    return {'exhaustive_part': 'all valid operation sequences of length <= %d over the small pool %r and of length <= %d over the tiny pool %r '
+    return {'exhaustive_part': 'all valid operation sequences of length <= 3 over the small pool %r and of length <= %d over the tiny pool %r '
                                '(maximal sequences counted in monitor_counters; every prefix is checked while a sequence runs)'
-                               % (L, SMALL_POOL, L + (0 if tier == 'quick' else 1), TINY_POOL),
+                               % (SMALL_POOL, 3 if tier == 'quick' else 5, TINY_POOL),
             'exhaustive': False}
